@@ -73,8 +73,8 @@ func c10CheckSymbolicHash(f c10Lookup, rm *refForest, v *refView, tracked []int,
 }
 
 // c10CheckGetHash: one symbolic position.  exact: the forest stores every node (Pollard, full map).
-// Open finding F-C10-2: for a position >= 2^(TreeRows+1) that is a node in NEITHER numbering the
-// translation wraps around and lands on a stored node; carve-out predicate: alt != nil (allocated for
+// Former finding F-C10-2 (repaired in /repo; the predicate is inert unless the tag is re-opened in KNOWN_FINDINGS.txt): for a position >= 2^(TreeRows+1) that is a node in NEITHER numbering the
+// translation wrapped around and landed on a stored node; carve-out predicate: alt != nil (allocated for
 // more rows) and p >= 2^(TreeRows+1).
 func c10CheckGetHash(f c10Lookup, v *refView, alt *refView, exact bool, id string) {
 	if verifParam("q", 1) != 3 {
